@@ -178,6 +178,9 @@ POOLS9 = [
     ("big-int", [2 ** 53 - 1, 2 ** 53, 2 ** 53 + 1, 2 ** 53 + 2, 2 ** 60, 2 ** 60 + 1, 2 ** 62,
                  2 ** 63, 2 ** 64]),
     ("thirds", [k / 3.0 for k in range(-4, 5)]),
+    # finite edges and a finite span close to the largest float: every difference and every quotient
+    # of differences is finite, products of a difference with a small integer are not
+    ("near-max", [0, 2e307, 4e307, 6e307, 8e307, 1e308, 1.2e308, 1.4e308, 1.6e308]),
 ]
 
 POOLS12 = [
